@@ -47,7 +47,7 @@ def compose(kidx, shape):
         for pt in b.ptypes:
             ptypes[pt.name] = pt
         for fn, ptn in b.fields:
-            params[fn] = Param(fn, ptn, short=f"kind {P[ki].name}" if pos == 0 else None, long="second field\n  continued on an indented line\n\n\tand after a blank line, a tab" if pos == 1 else None)
+            params[fn] = Param(fn, ptn, short=f"kind   {P[ki].name}  " if pos == 0 else None, long="second field\n  continued on an indented line\n\n\tand after a blank line, a tab" if pos == 1 else None)
         ref_raw = b.ref_raw or ref_raw
         ref_cal = b.ref_cal or ref_cal
         start = (start + b.static_width) if (start is not None and b.static_width is not None) else None
@@ -67,7 +67,7 @@ def compose(kidx, shape):
         a_entries = tuple(ents[0]) + (("c", "NEST"),) + tuple(e for es in ents[2:] for e in es)
         conts = [Container("CCSDSPacket", hdr, abstract=True),
                  Container("A", a_entries, base="CCSDSPacket", criteria=(Cmp("PKT_APID", "==", "1"),), long="nests NEST\n    (shared with B)\n"),
-                 Container("NEST", inner, short="shared"),
+                 Container("NEST", inner, short="shared     nested       container   "),   # runs of 5, 7 and 3 blanks are part of the text
                  Container("B", (("c", "NEST"),), base="CCSDSPacket", criteria=(Cmp("PKT_APID", "==", "2"),))]
     return Doc(tuple(ptypes.values()), tuple(params.values()), tuple(conts))
 
